@@ -150,6 +150,7 @@ func (f *Frame) modifiedKeys(li *loopInfo, st *BState) (keys []string, sorts map
 	f.done = savedDone
 	f.rets = f.rets[:savedRets]
 	f.panicEdge = f.panicEdge[:savedPE]
+	f.panicHeap = f.panicHeap[:savedPE]
 	f.dry, f.dryHeader, f.dryState, f.cur, f.curBlock = savedDry, savedHdr, savedState, savedCur, savedBlk
 	s.curBlk = savedBlk2
 	s.restore(sn)
